@@ -56,6 +56,7 @@ func runSpecial(c *core.Ctx) []core.Obligation {
 	}
 	obs = append(obs, capRadiusArithmetic(c)...)
 	obs = append(obs, rawLongitudeLiterals(c)...)
+	obs = append(obs, orderedIntervalFromPoints(c)...)
 	obs = append(obs, capExpandedSaturates(c))
 	obs = append(obs, capInteriorFull(c))
 	return obs
